@@ -842,6 +842,9 @@ class Engine:
             if isinstance(v, Slice): return V(v.base, ty)
             if isinstance(v, Opaque) and v.tag == 'fnptr': return V(BitVec('fnaddr.' + '.'.join(str(a) for a in v.args), 64), ty)
         if kind.startswith('PointerCoercion'):
+            if 'Unsize' in kind and isinstance(v, Ref):
+                inner0 = self.get(None, v.frame, v.local, v.proj)
+                if isinstance(inner0, Agg) and inner0.kind == 'array' and inner0.f and not isinstance(inner0.f[0], V): return v      # &[T; N] -> &[T] for element types kept as values
             if 'Unsize' in kind and isinstance(v, Ref) and re.search(r'\[\w+\]$', ty.strip()):
                 inner = self.get(None, v.frame, v.local, v.proj) if True else None
                 if isinstance(inner, Agg) and inner.kind == 'array' and len(inner.f) == 0:
@@ -1255,6 +1258,24 @@ def intrinsic(eng, st, fr, callee, base, args, R):
             return R(Enum(If(r.f[1].t, BitVecVal(0, 64), BitVecVal(1, 64)), {0: [], 1: [r.f[0]]}, 'Option'))
         if fn == 'overflowing_add' or fn == 'overflowing_sub' or fn == 'overflowing_mul':
             return R(eng.binop({'a': 'AddWithOverflow', 's': 'SubWithOverflow', 'm': 'MulWithOverflow'}[fn[12]], a, args[1]))
+        if fn in ('checked_div', 'checked_rem', 'checked_div_euclid', 'checked_rem_euclid') and not sg:
+            b = args[1].t; r = UDiv(a.t, b) if 'div' in fn else URem(a.t, b)
+            return R(Enum(If(b == 0, BitVecVal(0, 64), BitVecVal(1, 64)), {0: [], 1: [V(r, ty)]}, 'Option'))
+        if fn in ('wrapping_div', 'wrapping_rem') and not sg:
+            b = args[1].t
+            if not eng.panic_if(st, fr, b == 0, 'attempt to divide by zero' if fn == 'wrapping_div' else 'attempt to calculate the remainder with a divisor of zero'): return None
+            return R(V(UDiv(a.t, b) if fn == 'wrapping_div' else URem(a.t, b), ty))
+        if fn in ('saturating_add', 'saturating_sub') and not sg:
+            b = args[1].t
+            if fn == 'saturating_add': return R(V(If(ULT(a.t + b, a.t), BitVecVal((1 << w) - 1, w), a.t + b), ty))
+            return R(V(If(ULT(a.t, b), BitVecVal(0, w), a.t - b), ty))
+        if fn in ('rotate_left', 'rotate_right'):
+            sh = args[1].t; sh = Extract(w - 1, 0, sh) if sh.size() > w else (ZeroExt(w - sh.size(), sh) if sh.size() < w else sh)
+            return R(V(z3.RotateLeft(a.t, sh) if fn == 'rotate_left' else z3.RotateRight(a.t, sh), ty))
+        if fn in ('min', 'max'):
+            b = args[1].t; lt = (a.t < b) if sg else ULT(a.t, b)
+            return R(V(If(lt, a.t, b) if fn == 'min' else If(lt, b, a.t), ty))
+        if fn == 'unsigned_abs' and sg: return R(V(If(a.t < 0, -a.t, a.t), 'u' + ty[1:]))
         if fn == 'is_multiple_of': return R(V(If(args[1].t == 0, a.t == 0, URem(a.t, args[1].t) == 0), 'bool'))
         if fn == 'abs_diff':
             x, y = a.t, args[1].t; lt = (x < y) if sg else ULT(x, y)
@@ -1336,6 +1357,36 @@ def intrinsic(eng, st, fr, callee, base, args, R):
             esz = bvw(ety_)[0] // 8
             if not eng.panic_if(st, fr, UGE(args[1].t, s.len), 'index out of bounds'): return None
             return R(Ptr(s.base + args[1].t * esz, ety_))
+    if re.match(r'core::slice::<impl \[.*\]>::iter$', base):
+        v = deref(args[0])
+        if isinstance(v, Agg): return R(Opaque('sliceiter', (v,)))
+    m = re.match(r'<std::slice::Iter<.*> as Iterator>::(any|all)$', base)
+    if m:
+        it = deref(args[0]); clo = deref(args[1]) if isinstance(args[1], Ref) else args[1]
+        if isinstance(it, Opaque) and it.tag == 'sliceiter' and isinstance(clo, Closure):
+            f = eng.lookup('<{closure@%s} as FnMut<x>>::call_mut' % clo.cid)
+            if f is None: raise Unsupported(f'{m.group(1)}(): closure body not found')
+            res = BoolVal(m.group(1) == 'all')
+            for i, e in enumerate(it.args[0].f):
+                fr.locals['__iclo'] = clo; fr.locals[f'__ielem{i}'] = e
+                val = eng.merged_pure(st, f, [Ref(fr, '__iclo', []), Ref(fr, f'__ielem{i}', [])])
+                if val is NotImplemented or val is None: raise Unsupported(f'{m.group(1)}(): closure not pure')
+                res = Or(res, val.t) if m.group(1) == 'any' else And(res, val.t)
+            return R(V(simplify(res), 'bool'))
+    # ---- String building: a String is Opaque('string', ..) (one format!/to_string) or Opaque('strcat', parts) after in-place appends
+    if base in ('std::string::String::push_str', 'alloc::string::String::push_str', '<std::string::String as AddAssign<&str>>::add_assign', 'std::string::String::push', 'alloc::string::String::push'):
+        r_ = args[0]
+        if isinstance(r_, Ref):
+            cur = eng.get(st, r_.frame, r_.local, r_.proj); piece = deref(args[1]) if isinstance(args[1], Ref) else args[1]
+            if base.endswith('::push'): piece = Opaque('char', (piece,))
+            parts = (cur.args if isinstance(cur, Opaque) and cur.tag == 'strcat' else (cur,)) + (piece,)
+            eng.put(st, r_.frame, r_.local, r_.proj, Opaque('strcat', parts)); return R(Agg([], '()'))
+    if base in ('std::string::String::new', 'alloc::string::String::new'): return R(Str(''))
+    if base in ('<std::string::String as Add<&str>>::add',):
+        cur = args[0]; piece = deref(args[1]) if isinstance(args[1], Ref) else args[1]
+        return R(Opaque('strcat', (cur.args if isinstance(cur, Opaque) and cur.tag == 'strcat' else (cur,)) + (piece,)))
+    if base in ('std::string::String::as_str', 'alloc::string::String::as_str', '<std::string::String as Deref>::deref', '<std::string::String as std::ops::Deref>::deref', '<std::string::String as AsRef<str>>::as_ref', '<std::string::String as Borrow<str>>::borrow'):
+        return R(deref(args[0]))
     if base.endswith('as std::ops::Try>::branch'):
         r = args[0]
         if r.ty == 'Option' or (set(r.payload) <= {0, 1} and 'Option' in callee.split(' as ')[0]):
@@ -1441,6 +1492,11 @@ def intrinsic(eng, st, fr, callee, base, args, R):
         o = args[0]; return R(Enum(o.d, {k: [deref(x) for x in p] for k, p in o.payload.items()}, 'Option'))
     if base in ('std::mem::drop', 'core::mem::drop', 'std::mem::forget'): return R(Agg([], '()'))
     if base.endswith('as From<T>>::from') or base.endswith('as Into<T>>::into'): return R(args[0])
+    m = re.match(r'<(\w+) as From<bool>>::from$', base)
+    if m and m.group(1) in INT_TYPES:
+        w1 = bvw(m.group(1))[0]; return R(V(If(args[0].t, BitVecVal(1, w1), BitVecVal(0, w1)), m.group(1)))
+    m = re.match(r'<(\w+) as Into<(\w+)>>::into$', base)
+    if m and m.group(1) in INT_TYPES and m.group(2) in INT_TYPES: return R(eng.cast(args[0], m.group(2), 'IntToInt'))
     m = re.match(r'<(\w+) as (?:From|TryFrom)<(\w+)>>::(from|try_from)$', base)
     if m and m.group(1) in INT_TYPES and m.group(2) in INT_TYPES:
         a = args[0]; w0, s0 = bvw(m.group(2)); w1, s1 = bvw(m.group(1))
